@@ -253,3 +253,19 @@ func (r *Recorder) InProgress() []*Ev {
 	}
 	return out
 }
+
+// Timeline renders the recorded hook calls (Dequeue excluded) in entry order, for replay logs.
+func (r *Recorder) Timeline() []string {
+	var out []string
+	for _, e := range r.Evs {
+		if e.Hook == "Dequeue" && e.Tag == "" {
+			continue
+		}
+		s := fmt.Sprintf("t=%d..%d %s@%s %s", e.T, e.Ret, e.Hook, e.Conn, e.Tag)
+		if e.Err != nil {
+			s += " err=" + e.Err.Error()
+		}
+		out = append(out, s)
+	}
+	return out
+}
